@@ -852,7 +852,7 @@ class Collocator:
             )
 
         # Did we find any spatial collocations?
-        if not pairs.any():
+        if not pairs.size:
             return self.empty
 
         # Check now whether the spatial collocations really pass the temporal
@@ -1063,7 +1063,7 @@ class Collocator:
             original_pairs, intervals, distances,
             max_interval, max_distance
     ):
-        if not original_pairs.any():
+        if not original_pairs.size:
             return self.empty
 
         pairs = []
@@ -1263,7 +1263,7 @@ class Collocator:
         pairs = np.hstack(pairs_list)
 
         # No collocations were found.
-        if not pairs.any():
+        if not pairs.size:
             return self.no_pairs, self.no_distances
 
         # Stack the rest of the results together:
@@ -1320,7 +1320,7 @@ class Collocator:
         pairs, distances = self.index.query(*query_points, r=max_distance)
 
         # No collocations were found.
-        if not pairs.any():
+        if not pairs.size:
             # We return empty arrays to have consistent return values:
             return self.no_pairs, self.no_distances
 
